@@ -1683,6 +1683,20 @@ func c04R4(c *Ctx) {
 							fetchers = append(fetchers, cand)
 						}
 					}
+					// ... or the named module helper the getter delegates to (`return preCopyAndFetch(ctx, src, desc, opts)`):
+					// it yields what the getter yields, and the getter hands its error on as it is
+					for _, call := range Calls(G, func(string) bool { return true }) {
+						h := StaticCallee(call)
+						if _, isDefer := call.(*ssa.Defer); isDefer || h == nil || !inModule(h) || len(h.Blocks) == 0 || len(CallsTo(h, nFetch)) == 0 {
+							continue
+						}
+						if !types.Identical(h.Signature.Results(), G.Signature.Results()) {
+							continue
+						}
+						if okD, _ := c04Unchanged(call, nil); okD {
+							fetchers = append(fetchers, h)
+						}
+					}
 				}
 				for _, FG := range fetchers {
 					pres := sitesOf(FG, pre)
